@@ -204,6 +204,12 @@ func streamDefaults(r *rand.Rand, i int, tier string) *Case {
 // searchPossibleConflict (C18)
 
 func genSettingSelector(r *rand.Rand) metav1.LabelSelector {
+	if r.Intn(12) == 0 {
+		// unusable through its LABELS only (no expression): an invalid label value or key
+		return pick(r, metav1.LabelSelector{MatchLabels: map[string]string{"role": "big memory"}},
+			metav1.LabelSelector{MatchLabels: map[string]string{"bad key!": "x"}},
+			metav1.LabelSelector{MatchLabels: map[string]string{"zone": "a", "disk": "-leading-dash"}})
+	}
 	switch r.Intn(7) {
 	case 0:
 		return metav1.LabelSelector{}
